@@ -37,6 +37,7 @@ func init() {
 		"unicode/utf16.Decode":        extUTF16Decode,
 		"compress/zlib.NewReader":     extZlibNewReader,
 		"io.Copy":                     extIoCopy,
+		"io.CopyN":                    extIoCopyN,
 		"(*bytes.Buffer).Bytes":       extBufferBytes,
 		"(*bytes.Buffer).Write":       extBufferWrite,
 	}
@@ -813,3 +814,63 @@ func (vc *VC) callBuiltin(fr *Frame, st *State, name string, args []Val, c *ssa.
 }
 
 var _ = strings.HasPrefix
+
+
+// io.CopyN(dst *bytes.Buffer, src stream, n): exactly n bytes are appended to dst, or
+// everything that was left is consumed and a non-nil error is returned (A-IO). The buffer
+// grows with the bytes delivered, not with n.
+func extIoCopyN(vc *VC, fr *Frame, st *State, args []Val, pos token.Pos) []Outcome {
+	vc.assume("A-IO")
+	dst, ok := args[0].(IfaceVal)
+	if !ok {
+		panic(execError{"io.CopyN destination"})
+	}
+	bp, ok := dst.V.(PtrVal)
+	if !ok {
+		panic(execError{"io.CopyN destination is not a *bytes.Buffer"})
+	}
+	p, s := vc.getStream(st, args[1])
+	n := args[2].(Term)
+	b := vc.bufferObj(st, bp)
+	is := vc.intSort(64)
+	var res []Outcome
+	rem := vc.iSub(s.Len, s.Pos)
+	neg := vc.iLt(n, vc.idx(0), true)
+	enough := And(Not(neg), vc.iLe(n, rem, true))
+	mk := func(s0 *State, cnt Term) {
+		nc := vc.freshTerm("bufcontent", b.Content.S)
+		vc.nfresh++
+		q := Term{S: is, E: fmt.Sprintf("j!q%d", vc.nfresh), Signed: true}
+		inNew := And(vc.iLe(b.Len, q, true), vc.iLt(q, vc.iAdd(b.Len, cnt), true))
+		src := vc.streamByte(s, vc.iAdd(s.Pos, vc.iSub(q, b.Len)))
+		body := Eq(Select(nc, q), Ite(inNew, src, Select(b.Content, q)))
+		s0.Fact(Term{S: SBool, E: fmt.Sprintf("(forall ((%s %s)) %s)", q.E, is.String(), body.E)})
+		vc.store(s0, bp, BufferObj{Content: nc, Len: vc.iAdd(b.Len, cnt)})
+		ns := s
+		ns.Pos = vc.iAdd(s.Pos, cnt)
+		s0.mem[p.Cell] = ns
+		s0.extWrites++
+		if vc.writeLog != nil {
+			vc.writeLog[p.Cell] = true
+		}
+	}
+	s1 := st.Clone()
+	s1.Assume(enough)
+	if !s1.Infeasible() {
+		mk(s1, n)
+		res = append(res, Outcome{St: s1, Ret: []Val{n, Term{S: SErr, E: "err_nil"}}})
+	}
+	s2 := st.Clone()
+	s2.Assume(And(Not(neg), Not(vc.iLe(n, rem, true))))
+	if !s2.Infeasible() {
+		mk(s2, rem)
+		res = append(res, Outcome{St: s2, Ret: []Val{rem, vc.newError(s2, "copyn")}})
+	}
+	s3 := st
+	s3.Assume(neg)
+	if !s3.Infeasible() {
+		// negative n: LimitReader yields nothing; CopyN returns (0, nil) since written == n is false -> EOF
+		res = append(res, Outcome{St: s3, Ret: []Val{vc.idx(0), vc.newError(s3, "copyn")}})
+	}
+	return res
+}
